@@ -1,6 +1,6 @@
 //! C10 — emitted transactions are well-formed, self-consistent and reproducible.
 //!
-//! Constant TIRs for every subset of 17 optional features are compiled; each payload is decoded by pallas
+//! Constant TIRs for every subset of 19 optional features are compiled; each payload is decoded by pallas
 //! (the "standard decoder") and by the independent CBOR reader; body hash, auxiliary-data hash and
 //! script-data hash are recomputed from the payload bytes; the raw CBOR is scanned for duplicate keys and
 //! empty set-like fields; compilation is repeated (same compiler, fresh compiler, every iteration order of
@@ -20,7 +20,7 @@ use tx3_tir::model::v1beta0 as tir;
 
 pub struct C10;
 
-pub const FEATURES: [&str; 17] = [
+pub const FEATURES: [&str; 19] = [
     "metadata",
     "input-redeemer",
     "mint",
@@ -38,6 +38,8 @@ pub const FEATURES: [&str; 17] = [
     "donation",
     "two-utxo-input",
     "validity",
+    "second-policy-mint",
+    "output-tokens-cancel",
 ];
 
 fn has(mask: u32, name: &str) -> bool {
@@ -80,10 +82,21 @@ pub fn build(mask: u32, network: u8, set_rank: usize) -> tir::Tx {
         let n = if has(mask, "burn-equals-mint") { 5 } else { 2 };
         tx.burns.push(tir::Mint { amount: tirb::assets(vec![tirb::token(&pol, b"A", n)]), redeemer: mint_red.clone() });
     }
+    if has(mask, "second-policy-mint") {
+        // a second policy that survives while the first one may cancel completely
+        tx.mints.push(tir::Mint { amount: tirb::assets(vec![tirb::token(&[0x88u8; 28], b"y", 3)]), redeemer: tir::Expression::None });
+    }
+    let mut out_assets = vec![tirb::lovelace(2_000_000)];
+    if has(mask, "output-tokens-cancel") {
+        // one policy whose entries cancel inside the output next to one that survives
+        out_assets.push(tirb::token(&pol, b"A", 5));
+        out_assets.push(tirb::token(&[0x88u8; 28], b"y", 1));
+        out_assets.push(tirb::token(&pol, b"A", -5));
+    }
     tx.outputs.push(tir::Output {
         address: tir::Expression::Address(addr.clone()),
         datum: tir::Expression::None,
-        amount: tirb::assets(vec![tirb::lovelace(2_000_000)]),
+        amount: tirb::assets(out_assets),
         optional: false,
     });
     if has(mask, "vanishing-optional-output") {
